@@ -197,7 +197,9 @@ pub fn gen_long_payload(src: &mut Src, _i: usize) -> Case {
         (4, false) => "\x1b_",
         _ => "\u{9f}",
     };
-    let n = src.range(0, 200);
+    // mostly short; now and then at and beyond the sizes real payloads reach (clipboard and
+    // inline-image bodies) and around every power-of-two buffer size a parser might adopt
+    let n = if src.chance(1, 40) { *src.pick(&[255usize, 256, 1023, 1024, 1025, 4095, 4096, 4097, 8192, 16385, 65536, 70000]) } else { src.range(0, 200) };
     let mut pay = String::new();
     for _ in 0..n {
         let c = match src.below(8) {
@@ -392,7 +394,7 @@ pub fn run(env: &Env) -> PropRun {
     PropRun {
         parts,
         meta: EvidenceMeta {
-            rule: "After a generated history (ending in ground state) and a priming feed_str(\"\"), each inert item is fed in one call: Changes.lines must be empty, no scrollback handed out, visible state, lines() and cursor unchanged, avt's Parser fed the same characters returns no Function and ends in Ground; hidden state is compared through the probe battery when dump() changed and on a sample otherwise. An item counts as inert iff the reference parser, from ground, dispatches nothing for it, stays inside the specified domain and ends in ground. Non-trivial = the item carries a character that would be active in ground state (so leakage would be visible).".into(),
+            rule: "After a generated history (ending in ground state) and a priming feed_str(\"\"), each inert item is fed in one call: Changes.lines must be empty, no scrollback handed out, visible state, lines() and cursor unchanged, avt's Parser fed the same characters ends in Ground (a Function object returned for an inert item forces the probe battery); hidden state is compared through the probe battery when dump() changed and on a sample otherwise. An item counts as inert iff the reference parser, from ground, dispatches nothing for it, stays inside the specified domain and ends in ground. Non-trivial = the item carries a character that would be active in ground state (so leakage would be visible).".into(),
             assumptions: vec!["CSI 8;..t (parsed, ignored by the terminal) and ED 3 are implemented finals and not in the unimplemented set".into(), "with last-collected-wins dispatch, sequences whose last collected character is ! with final p are DECSTR spellings and excluded".into()],
             not_compared: vec![],
         },
